@@ -568,6 +568,22 @@ example : (step wS1 (.removeNamespace wNs)).2 = some (.cimError 20) := by decide
 
 /-! ### the source skeletons (Generated/Atomic.lean, re-extracted from the repo on every run) -/
 
+/-- the skeleton interpreter on the shapes that matter: check-then-write is safe, write-then-check is not (the
+    seeded mutant "class_store.create before _validate_dependencies_exist"), a loop that checks and writes per
+    iteration is not (mutant "write the first namespace before validating the second"), a failing store write
+    enters its handler unwritten, a guarded block protects only what it wrote itself, `return` ends a path -/
+theorem skeleton_interpreter_examples :
+    Skel.safe (.seq [.chk, .alt [.seq [.chk], .seq []], .chk, .wr]) = true ∧
+    Skel.safe (.seq [.chk, .alt [.seq [.chk], .seq []], .wr, .chk]) = false ∧
+    Skel.safe (.seq [.loop (.seq [.chk]), .loop (.seq [.wr])]) = true ∧
+    Skel.safe (.seq [.loop (.seq [.alt [.seq [.chk], .seq []], .wr])]) = false ∧
+    Skel.safe (.tryalt (.seq [.wr]) [.seq [.chk]]) = true ∧
+    Skel.safe (.tryalt (.seq [.wr, .chk]) [.seq []]) = false ∧
+    Skel.safe (.seq [.chk, .guarded (.seq [.loop (.seq [.wr, .chk])])]) = true ∧
+    Skel.safe (.seq [.wr, .guarded (.seq [.chk])]) = false ∧
+    Skel.safe (.seq [.guarded (.seq [.wr]), .chk]) = false ∧
+    Skel.safe (.seq [.alt [.seq [.wr, .ret], .seq []], .chk, .wr]) = true := by decide
+
 /-- the methods whose body is claimed to be "all checks, then writes" -/
 def structurallyOrdered : List String :=
   ["MainProvider.CreateClass", "MainProvider.ModifyClass", "MainProvider.DeleteClass", "MainProvider.SetQualifier",
